@@ -11,6 +11,9 @@
 //   alone <seed> <hex> L1:...                       lzma_alone_encoder
 //   xbound <api> <check> <n> <kind> <seed> RF...    single-call encoders with out_size == bound(n) exactly,
 //                                                   data generated here (kind 0 random, 1 zeros, 2 text, 3 mixed)
+//   relchain RF...                                  prints the chain as the functional filter tokens of c02_func.c / Driver/C02.lean
+//                                                   (lzma2:<dict> lzma1:<id>:<lc>:<lp>:<pb>:<dict> bcj:<id>:<off> bcjn:<id> delta:<dist>):
+//                                                   what lzma_lzma_preset() makes of the preset numbers, nothing else is resolved here
 // RF tokens: L2:<preset>:<dict>:<lc>:<lp>:<pb>:<mode>:<nice>:<mf>:<depth>  (-1 keeps the preset's value), L1:... same,
 //            X86 PPC IA64 ARM ARMT SPARC ARM64 RISCV [:<start_offset>], DELTA:<dist>
 #include "c02_common.h"
@@ -305,6 +308,26 @@ bool c02_rel(hp_line *l)
 		if (r == LZMA_OK) { hp_put_hex(out, out_len); putchar(' '); rt_alone(out, out_len, data, n); } else printf("- -");
 		putchar('\n');
 		free(out); free(data);
+
+	} else if (!strcmp(op, "relchain") && nt >= 2) {
+		rel_chain c;
+		if (!rel_parse_chain(l, 1, &c)) { printf("bad-op\n"); return true; }
+		for (int i = 0; c.f[i].id != LZMA_VLI_UNKNOWN; ++i) {
+			if (i > 0) putchar(' ');
+			if (c.f[i].id == LZMA_FILTER_LZMA2) {
+				printf("lzma2:%" PRIu32, ((const lzma_options_lzma *)c.f[i].options)->dict_size);
+			} else if (c.f[i].id == LZMA_FILTER_LZMA1) {
+				const lzma_options_lzma *o = c.f[i].options;
+				printf("lzma1:%" PRIu64 ":%" PRIu32 ":%" PRIu32 ":%" PRIu32 ":%" PRIu32, (uint64_t)c.f[i].id, o->lc, o->lp, o->pb, o->dict_size);
+			} else if (c.f[i].id == LZMA_FILTER_DELTA) {
+				printf("delta:%" PRIu32, ((const lzma_options_delta *)c.f[i].options)->dist);
+			} else if (c.f[i].options == NULL) {
+				printf("bcjn:%" PRIu64, (uint64_t)c.f[i].id);
+			} else {
+				printf("bcj:%" PRIu64 ":%" PRIu32, (uint64_t)c.f[i].id, ((const lzma_options_bcj *)c.f[i].options)->start_offset);
+			}
+		}
+		putchar('\n');
 
 	} else if (!strcmp(op, "xbound") && nt >= 6) {
 		// xbound <api> <check> <n> <kind> <seed> RF...
